@@ -33,7 +33,9 @@
 #include <fcppt/random/distribution/parameters/uniform_real.hpp>
 #include <fcppt/random/generator/minstd_rand.hpp>
 #include <fcppt/random/generator/mt19937.hpp>
+#if !defined(C20_NO_OBSERVED)
 #include <fcppt/random/generator/seed_from_chrono.hpp>
+#endif
 #include <fcppt/random/wrapper/make_uniform_container.hpp>
 #include <fcppt/random/wrapper/make_uniform_container_advanced.hpp>
 #include <fcppt/random/distribution/parameters/make_uniform_enum_advanced.hpp>
@@ -161,13 +163,24 @@ std::string bits_json(F const v)
 }
 
 long long records = 0;
+// restart support: the check restarts the harness behind a record in which the code under test crashed
+// or hung (`record OUT seed tier SKIP`): the first SKIP records are not driven again
+long long skip_records = 0;
+unsigned record_alarm_s = 30; // watchdog per record (a record is at most a few hundred draws: microseconds)
 void emit(vj::J const &pre, std::function<void(vj::J &)> const &call)
 {
+  if (records < skip_records)
+  {
+    ++records;
+    return;
+  }
   vj::begin_call(pre.s);
   vj::J rest('{');
   rest.s.clear();
   rest.first = false;
+  ::alarm(record_alarm_s);
   call(rest);
+  ::alarm(0);
   vj::end_call(rest.s + "}");
   ++records;
 }
@@ -704,6 +717,9 @@ void drive_raw_seq(std::string const &ename, std::vector<unsigned> const &seq, i
 template <typename FE>
 void drive_chrono(std::string const &ename)
 {
+#if defined(C20_NO_OBSERVED)
+  (void)ename; // observed-only part (seed_from_chrono is outside the statement) left out of this build
+#else
   vj::J pre;
   pre.kv("f", "chrono").kv("eng", ename);
   emit(pre, [&](vj::J &r) {
@@ -712,6 +728,7 @@ void drive_chrono(std::string const &ename)
     for (int i = 0; i < 4; ++i) w.push_back(num_of(fe()));
     r.raw("wv", nums_json(w)).raw("wmin", num_json(num_of(FE::min()))).raw("wmax", num_json(num_of(FE::max())));
   });
+#endif
 }
 
 template <typename R, typename FE, typename SE>
@@ -1383,10 +1400,10 @@ void sessions(vj::Rng &rng, bool const thorough)
   Spec const specs[] = {{"uniform_int", "int", -3, 5, 0, 16, 8},
                         {"uniform_int", "strong_short", 0, 0, -8, 8, 8},
                         {"uniform_int", "E9", 1, 6, 0, 8, 8},
-                        {"uniform_real", "double", -1.5, 2.25, 0.0, 1.0, 120},
+                        {"uniform_real", "double", -1.3, 2.2, 0.0, 1.1, 120},
                         {"uniform_real", "float", 0.0, 1.0, -8.0, 8.5, 60},
-                        {"uniform_real", "strong_double", 2.0, 2.5, -1.0, 1.0, 120},
-                        {"normal", "double", 1.0, 2.0, -3.5, 0.5, 200},
+                        {"uniform_real", "strong_double", 2.1, 2.7, -1.0, 1.3, 120},
+                        {"normal", "double", 1.1, 2.3, -3.3, 0.6, 200},
                         {"normal", "float", 0.0, 1.0, 4.0, 0.25, 120},
                         {"normal", "strong_float", -2.0, 0.5, 0.0, 3.0, 120}};
   std::size_t const nseeds = thorough ? 60 : 8;
@@ -1475,7 +1492,11 @@ bool container_named(std::string const &cname, int const size, std::vector<int> 
   if (cname == "vector") { drive_container<std::vector<int>>(cname, size, script); return true; }
   if (cname == "deque") { drive_container<std::deque<int>>(cname, size, script); return true; }
   if (cname == "vector_advanced") { drive_container<std::vector<int>, true>(cname, size, script); return true; }
+#if defined(C20_NO_OBSERVED)
+  if (cname == "vector_writes") return true; // write-through of uniform_container: outside the statement, left out
+#else
   if (cname == "vector_writes") { drive_container<std::vector<int>, false, true>(cname, size, script); return true; }
+#endif
   return false;
 }
 
@@ -1600,12 +1621,13 @@ void record(std::uint64_t const seed, bool const thorough)
     }
     if (i % 4 == 0)
     {
-      double const p1 = static_cast<double>(a) / 4.0;
+      // + 0.1 / 0.7: not representable in float - a parameter translation through a narrower type shows
+      double const p1 = static_cast<double>(a) / 4.0 + 0.1;
       double const p2 = p1 + 0.25 + static_cast<double>(b - a);
       drive_engine_real<double, f_mt, std::mt19937>("mt19937", "double", "uniform_real", s, p1, p2, 6);
       drive_engine_real<float, f_minstd, std::minstd_rand>("minstd_rand", "float", "uniform_real", s_minstd, static_cast<float>(p1), static_cast<float>(p2), 6);
       drive_engine_real<strong_double, f_minstd, std::minstd_rand>("minstd_rand", "strong_double", "uniform_real", s_minstd, p1, p2, 6);
-      drive_engine_real<double, f_mt, std::mt19937>("mt19937", "double", "normal", s, p1, 0.5 + static_cast<double>(b - a), 6);
+      drive_engine_real<double, f_mt, std::mt19937>("mt19937", "double", "normal", s, p1, 0.7 + static_cast<double>(b - a), 6);
       drive_engine_real<strong_float, f_mt, std::mt19937>("mt19937", "strong_float", "normal", s, static_cast<float>(p1), 1.0F + static_cast<float>(b - a), 6);
     }
   }
@@ -1746,6 +1768,7 @@ int main(int argc, char **argv)
   if (mode == "record")
   {
     vj::open(argv[2]);
+    if (argc > 5) skip_records = std::strtoll(argv[5], nullptr, 10);
     record(std::strtoull(argv[3], nullptr, 10), argc > 4 && std::string(argv[4]) == "thorough");
     vj::close();
     return 0;
